@@ -12,7 +12,7 @@ from simkit.pipe import Pipe, open_frontend
 
 ID = "C10"
 LEVEL = "fault_enumeration"
-RUNS = {"quick": 400, "thorough": 12000}
+RUNS = {"quick": 1600, "thorough": 30000}
 CHUNK = 5
 RULE = ("for each seeded delimited stream (real writer / reference encoder) EVERY byte offset 0..len is used as a "
         "crash point when len<=800 (otherwise all frame/varint boundary offsets +-2 plus a tape-chosen sample), "
